@@ -73,21 +73,53 @@ def dump_mir(features=DEFAULT_FEATURES, package='adf_bdd', target='--lib'):
     return (p.stdout, closures), time.time() - t
 
 
-def build_native(features=DEFAULT_FEATURES, release=False):
+def crate_dir(name):
+    """the harness crates name /repo/lib as a path dependency; for another checkout (VERIF_REPO) a copy with the path rewritten is used"""
+    src = os.path.join(VERIF, name)
+    if REPO == '/repo':
+        shutil.copyfile(os.path.join(REPO, 'Cargo.lock'), os.path.join(src, 'Cargo.lock'))
+        return src
+    dst = os.path.join(CACHE, '%s-%s' % (name, hashlib.sha1(REPO.encode()).hexdigest()[:8]))
+    if os.path.exists(dst): shutil.rmtree(dst)
+    shutil.copytree(src, dst, ignore=shutil.ignore_patterns('target', 'Cargo.lock'))
+    t = open(os.path.join(dst, 'Cargo.toml')).read().replace('path = "/repo/lib"', 'path = "%s/lib"' % REPO)
+    open(os.path.join(dst, 'Cargo.toml'), 'w').write(t)
+    shutil.copyfile(os.path.join(REPO, 'Cargo.lock'), os.path.join(dst, 'Cargo.lock'))
+    return dst
+
+
+def gen_server_sources(crate):
+    """C16: the server crate is a binary, so its pure kernels are compiled into the replay crate from the *source text* of /repo/server:
+    double_labeled_graph.rs verbatim, and the database DTOs (VarContainerDb, BddNodeDb, SimplifiedAdf + From impls) cut out of adf.rs"""
+    import re
+    gen = os.path.join(crate, 'src', 'gen'); os.makedirs(gen, exist_ok=True)
+    shutil.copyfile(os.path.join(REPO, 'server/src/double_labeled_graph.rs'), os.path.join(gen, 'double_labeled_graph.rs'))
+    txt = open(os.path.join(REPO, 'server/src/adf.rs')).read()
+    i = txt.find('#[derive(Clone, Deserialize, Serialize)]\npub(crate) struct VarContainerDb')
+    j = txt.find('type SimplifiedAdfOpt')
+    if i < 0 or j < 0 or j < i: raise RuntimeError('cannot locate the database DTOs in server/src/adf.rs')
+    pre = ('// generated from server/src/adf.rs - do not edit\n#![allow(unused)]\nuse std::collections::{HashMap, HashSet};\nuse std::sync::{Arc, RwLock};\n'
+           'use adf_bdd::datatypes::adf::VarContainer;\nuse adf_bdd::datatypes::{BddNode, Term, Var};\nuse serde::{Deserialize, Serialize};\n'
+           'use adf_bdd::adf::Adf;\nuse adf_bdd::obdd::Bdd;\ntype AcDb = Vec<String>;\n')
+    open(os.path.join(gen, 'server_dto.rs'), 'w').write(pre + txt[i:j])
+
+
+def build_native(features=DEFAULT_FEATURES, release=False, extra=()):
     """native replay binary against /repo/lib as it is now (one shared target dir, one copied binary per feature set)"""
     t = time.time()
-    key = fkey(f for f in features if f != 'HashSet') + ('-rel' if release else '')
+    key = fkey([f for f in features if f != 'HashSet'] + list(extra)) + ('-rel' if release else '')
     tdir = os.path.join(CACHE, 'target-replay')
     bindir = os.path.join(CACHE, 'bin'); os.makedirs(bindir, exist_ok=True)
     dest = os.path.join(bindir, 'verif_replay-%s-%d' % (key, os.getpid()))
     lock_src = os.path.join(REPO, 'Cargo.lock')
     with Lock('native'):
-        shutil.copyfile(lock_src, os.path.join(VERIF, 'replay', 'Cargo.lock'))
+        crate = crate_dir('replay')
         cmd = ['cargo', 'build', '--offline', '--no-default-features']
-        fl = [f for f in features if f != 'HashSet']
+        fl = [f for f in features if f != 'HashSet'] + list(extra)
+        if 'server_dto' in extra: gen_server_sources(crate)
         if fl: cmd += ['--features', ','.join(fl)]
         if release: cmd += ['--release']
-        p = subprocess.run(cmd, cwd=os.path.join(VERIF, 'replay'), env=dict(ENV, CARGO_TARGET_DIR=tdir, RUSTFLAGS='-Awarnings'),
+        p = subprocess.run(cmd, cwd=crate, env=dict(ENV, CARGO_TARGET_DIR=tdir, RUSTFLAGS='-Awarnings'),
                            capture_output=True, text=True)
         if p.returncode != 0:
             sys.stderr.write(p.stderr[-4000:])
